@@ -471,12 +471,7 @@ func Yield() {
 	if w == nil || w.ended || w.cur == nil {
 		return
 	}
-	if w.gcHook != nil && !w.inGC && !w.ambient && w.Tape.Choose(SFault, 400) == 0 {
-		// a garbage-collection cycle happens here: finalizers of what is unreachable now become tasks
-		w.inGC = true
-		w.gcHook()
-		w.inGC = false
-	}
+	maybeGC(w, 400)
 	w.enter()
 	t := w.cur
 	t.state = tRunnable
@@ -956,6 +951,26 @@ func RunEpoch() uint64 {
 		return 0
 	}
 	return W.Epoch
+}
+
+// maybeGC: a garbage-collection cycle of the simulated machine happens here one time in oneIn
+// (if the run registered a finalizer or cleanup at all): what is unreachable now is collected
+// and its finalizers become tasks.
+func maybeGC(w *World, oneIn int) {
+	if w.gcHook != nil && !w.inGC && !w.ambient && w.Tape.Choose(SFault, oneIn) == 0 {
+		w.inGC = true
+		w.gcHook()
+		w.inGC = false
+	}
+}
+
+// MaybeGC lets a seam say "a collection here would matter": the simulated pool calls it before
+// it looks for a pooled item, because what finalizers and cleanups typically do is hand memory
+// back to a pool.
+func MaybeGC(oneIn int) {
+	if w := W; w != nil && !w.ended && w.cur != nil {
+		maybeGC(w, oneIn)
+	}
 }
 
 // SetGCHook registers the function that performs a garbage-collection cycle of the simulated
